@@ -14,7 +14,7 @@ from tools.props import c08_common as C
 from tools.props import c08_text
 
 MANIFEST = {
-    "level_text": "Coq theorems (Properties/C08.v, no axioms) about an executable model of the run/cache state machine shared by run_generate and BuildSystem::generate_bindings, instantiated with the fingerprint = exactly the fields hash_commands/hash_structs/hash_config serialise and with per-file views of the data the generators read: for every history of edits, file deletions, cache deletions and (un)forced runs under every discovery order, a non-forced run that reports success or up-to-date leaves every file of a forced generation in place, unless the final state lies in one of three recorded classes (events differ, command line numbers differ under visualize_deps, loss of a vouched file), each refuted on the faithful model by a computed history; the former classes (serde rename/rename_all, validator attributes, command rename_all, parameter rename, visualize_deps) are hashed since the repair C08-C14-hash-inputs and their old witnesses are proved detected; completeness of the class list (equal fingerprint and equal unhashed components give equal files); the repaired design (sound fingerprint + presence test) is sound for all histories. Tied to /repo on every run by replaying all edit/deletion histories of length <=2 (quick) / <=3 (thorough) through the real CLI binary and through BuildSystem::generate_at_build_time in fresh processes and comparing every step with the extracted model, and by the hash-partition test on .typecache. Text level (round 7, Model/C08Text.v): over projects given as syntax (the item forms of Model/Pipeline.v) with the analysis abs_project into the analysed data, the projection view_of and the generated text of the text-level generator models (Pipeline.v types.ts / commands.ts token streams, PipelineZod.v zod types.ts / commands.ts text, Events.v events.ts text): the text is a function of the view (C08_text_function_of_view, via the factorisation C08_types_ts_of_analysis through the analysed data in hash order), the fingerprint covers the view (C08_fp_covers_view modulo class 8, C08_fp_covers_view_no_graph) and the text with no side condition (C08_fp_covers_text), and the same run/cache machine with text contents is sound for every history (C08_cache_sound_text outside class 8, C08_cache_sound_text_no_graph with no class premise): success or up-to-date leaves types.ts / commands.ts (both modes) and events.ts (plain mode) holding the text of a forced generation; in the other direction a changed struct name, field key at any position, command name and event name provably changes the text (C08_*_changes_*). Run-time tie of the text level: stream `text` compares the real tool's types.ts / commands.ts / events.ts of forced generations (both entry points) token for token with the model's text computed from the analysed data.",
+    "level_text": "Coq theorems (Properties/C08.v, no axioms) about an executable model of the run/cache state machine shared by run_generate and BuildSystem::generate_bindings, instantiated with the fingerprint = exactly the fields hash_commands/hash_structs/hash_config serialise and with per-file views of the data the generators read: for every history of edits, file deletions, cache deletions and (un)forced runs under every discovery order, a non-forced run that reports success or up-to-date leaves every file of a forced generation in place, unless the final state lies in one of three recorded classes (events differ, command line numbers differ under visualize_deps, loss of a vouched file), each refuted on the faithful model by a computed history; the former classes (serde rename/rename_all, validator attributes, command rename_all, parameter rename, visualize_deps) are hashed since the repair C08-C14-hash-inputs and their old witnesses are proved detected; completeness of the class list (equal fingerprint and equal unhashed components give equal files); the repaired design (sound fingerprint + presence test) is sound for all histories. Tied to /repo on every run by replaying all edit/deletion histories of length <=2 (quick) / <=3 (thorough) through the real CLI binary and through BuildSystem::generate_at_build_time in fresh processes and comparing every step with the extracted model, and by the hash-partition test on .typecache. Text level (round 7, Model/C08Text.v): over projects given as syntax (the item forms of Model/Pipeline.v) with the analysis abs_project into the analysed data, the projection view_of and the generated text of the text-level generator models (Pipeline.v types.ts / commands.ts token streams, PipelineZod.v zod types.ts / commands.ts text, Events.v events.ts text): the text is a function of the view (C08_text_function_of_view, via the factorisation C08_types_ts_of_analysis through the analysed data in hash order), the fingerprint covers the view (C08_fp_covers_view modulo class 8, C08_fp_covers_view_no_graph) and the text with no side condition (C08_fp_covers_text), and the same run/cache machine with text contents is sound for every history (C08_cache_sound_text outside class 8, C08_cache_sound_text_no_graph with no class premise): success or up-to-date leaves types.ts / commands.ts (both modes) and events.ts (plain mode) holding the text of a forced generation; in the other direction a changed struct name, field key at any position, command name and event name provably changes the text (C08_*_changes_*). The extracted oracle c08_ok and the boolean all_current are proved equivalent to the Prop-level statement (C08_oracle_reflects, C08_all_current_reflects). Run-time tie of the text level: stream `text` compares the real tool's types.ts / commands.ts / events.ts of forced generations (both entry points) token for token with the model's text computed from the analysed data.",
     "design_ref": "DESIGN.md section 5 C08, C14, C17; section 11 cache_sound",
     "level_note": "Two levels. View level (C08_cache_sound, faithful to every file of the plan): file contents are views (the data a file is rendered from). Text level (C08_cache_sound_text): types.ts and commands.ts in both modes and events.ts in plain mode hold the text of the generator models Pipeline.v / PipelineZod.v / Events.v, proved to be a function of the view and covered by the fingerprint; index.ts, dependency-graph.txt/.dot and the zod-mode events.ts remain views at that level (no text-level generator model exists for them). The text-level models cover the documented feature set under the default naming configuration (camelCase parameters, snake_case fields; no enums, no parameter renames, no command rename_all, no validator attributes, type_mappings applied to event payloads only) - for the rest (enums, non-default naming, validators) that equal views give equal text and different views different text is still checked differentially per edit class, not proved. Different view => different text is proved only for four edit classes (struct name, field key, command name, event name without a quote character), not in general (the view is finer than the text: e.g. async, is_public, file paths). The generation order used at the text level is the hash order (structs by name, commands by relative file then source order); its agreement with the order the real generators use (PathBuf order of the sorted file list, name order of the struct map) is checked by the `text` stream, not proved. The `text` stream runs struct-only projects of 1-3 files and 8 (quick) / 20 variants of the Pipeline.v sample, plain mode only. SipHash collision freedom is assumed (fingerprint equality = combined_hash equality, checked by the partition test); types reachable only through event payloads are not tracked by the types.ts view; edits are one representative per class on one base project per mode.",
     "technique": "Rocq/Coq proof over hand-written model + correspondence check (extracted OCaml vs real binary and Rust driver)"
